@@ -11,6 +11,7 @@ import OcVerif.Driver.RtLoop
 import OcVerif.Driver.RtWake
 import OcVerif.Driver.RtCancel
 import OcVerif.Driver.RtStop
+import OcVerif.Driver.RtSock
 import OcVerif.Driver.Co
 import OcVerif.Driver.Local
 import OcVerif.Driver.Beans
@@ -50,6 +51,7 @@ def dispatch (comp : String) : Option (String → String → Verdict) :=
   | "rtwake" => some Driver.RtWake.drive
   | "rtcancel" => some Driver.RtCancel.drive
   | "rtstop" => some Driver.RtStop.drive
+  | "rtsock" => some Driver.RtSock.drive
   | "co" => some Driver.Co.drive
   | "local" => some Driver.Local.drive
   | "beans" => some Driver.Beans.drive
